@@ -125,6 +125,85 @@ def must_write(w, path, depth=0):
     return res
 
 
+def holds_nothing_between_uses(w, fld):
+    """a buffer field of the Vm that is only ever given an empty value: every store into it (in any function of the crate, the constructor aside)
+    stores a fresh collection, or a local that was cleared on the way with nothing put into it afterwards; taking its content out leaves the
+    default. Such a field carries capacity from one use to the next, no contents: no residue between runs, nothing for reset() to undo."""
+    c = w.yarel
+    MUT = ('push', 'push_str', 'extend', 'extend_from_slice', 'insert', 'append', 'resize', 'write', 'write_all', 'write_fmt', 'write_str', 'set_len', 'fill')
+    seen_store = False
+    for f in c.fns.values():
+        if not (f.argc >= 1 and f.crate.ty(f.crate.peel_refs(f.local_ty(1))).get('n') == VMT):
+            continue
+        for bi in f.normal_blocks():
+            for s_ in f.blocks[bi]['s']:
+                d = s_.get('d') or {}
+                names = [e.get('n') for e in d.get('p', []) if isinstance(e, dict) and 'n' in e]
+                if not (d.get('l') == 1 and d.get('p') and d['p'][0] == '*' and names[:1] == [fld]):
+                    continue
+                if len(names) > 1:
+                    return False
+                rr = s_.get('r', {})
+                if rr.get('rv') == 'agg' and f.name in ('new', 'default', 'with_built_ins'):
+                    continue
+                seen_store = True
+                if rr.get('rv') != 'use' or op_place(rr['o']) is None or op_place(rr['o']).get('p'):
+                    return False
+                L = op_place(rr['o'])['l']
+                org = origins(f)
+                # the locals the stored value was moved through on its way (`buffer` -> temporary -> field)
+                A = {L}
+                grew = True
+                while grew:
+                    grew = False
+                    for b_ in f.blocks:
+                        for s2 in b_['s']:
+                            d2 = s2.get('d') or {}
+                            r2 = s2.get('r', {})
+                            src = op_place(r2.get('o', {}) or {}) if r2.get('rv') == 'use' else None
+                            if d2.get('l') in A and not d2.get('p') and src is not None and not src.get('p') and src['l'] not in A:
+                                A.add(src['l'])
+                                grew = True
+
+                def on_alias(l_):
+                    return any(l_ == a_ or _refers(f, l_, a_) for a_ in A)
+                # a fresh collection?
+                roots = org.get(L, ())
+                if roots and all(q[0][0] == 'call' and strip_generics(q[0][2]).rsplit('::', 1)[-1] in ('new', 'default', 'with_capacity') and len(q) == 1 for q in roots):
+                    continue
+                dom = f.dominators()
+                clears = [bj for bj, t in f.calls() if strip_generics(callee_name(t) or '').rsplit('::', 1)[-1] in ('clear',) and t['args'] and op_place(t['args'][0]) is not None
+                          and on_alias(op_place(t['args'][0])['l'])
+                          and bj in dom.get(bi, ())]
+                if not clears:
+                    return False
+                last = max(clears, key=lambda b_: len(dom.get(b_, ())))
+                between = f.reachable_blocks(last) & {b_ for b_ in f.normal_blocks() if bi in f.reachable_blocks(b_) or b_ == bi}
+                for b_ in between:
+                    t = f.blocks[b_]['t']
+                    if b_ != last and t['t'] == 'call' and strip_generics(callee_name(t) or '').rsplit('::', 1)[-1] in MUT and t['args'] and op_place(t['args'][0]) is not None and \
+                            on_alias(op_place(t['args'][0])['l']):
+                        return False
+    return seen_store
+
+
+def _refers(f, l, target, depth=0):
+    if l == target:
+        return True
+    if depth > 4:
+        return False
+    for b in f.blocks:
+        for s_ in b['s']:
+            d = s_.get('d') or {}
+            if d.get('l') == l and not d.get('p'):
+                rr = s_.get('r', {})
+                if rr.get('rv') == 'ref' and _refers(f, rr['p']['l'], target, depth + 1) and not [e for e in rr['p'].get('p', []) if e != '*']:
+                    return True
+                if rr.get('rv') == 'use' and op_place(rr['o']) is not None and _refers(f, op_place(rr['o'])['l'], target, depth + 1):
+                    return True
+    return False
+
+
 def n1(rep, w):
     c = w.yarel
     tab = {e['field']: e for e in c01.table('c15_vm_fields.json')}
@@ -154,7 +233,9 @@ def n1(rep, w):
     for fld in fields:
         e = tab.get(fld)
         if e is None:
-            if fld in written_by_run and fld not in assigned:
+            if fld in written_by_run and fld not in assigned and holds_nothing_between_uses(w, fld):
+                r.ok('Vm.%s (unclassified: a buffer that is only ever stored empty - capacity, not contents, survives a use)' % fld)
+            elif fld in written_by_run and fld not in assigned:
                 r.bad('Vm.' + fld, 'unclassified field is written during a run (%s) and not re-initialised by execute(): state from one run '
                       'leaks into the next' % sorted(written_by_run[fld])[:3])
             else:
@@ -273,6 +354,8 @@ def n4(rep, w):
             r.ok('Vm.%s reassigned by reset()' % fld)
         elif e.get('reset_neutral'):
             r.ok('Vm.%s not reset (neutral: %s)' % (fld, e['reset_neutral']))
+        elif holds_nothing_between_uses(w, fld):
+            r.ok('Vm.%s not reset (a buffer that is only ever stored empty: nothing to undo)' % fld)
         else:
             r.bad('Vm.%s survives reset()' % fld, 'a run can change Vm.%s and reset() does not re-initialise it: after reset the interpreter '
                   'differs from a new one' % fld, rs.loc())
